@@ -172,6 +172,28 @@ def random_table(rng, n=None, nrows=None, p_empty=0.15):
     return {"n": n, "rows": rows, "empties": empties}
 
 
+def add_twin_unary_rows(rng, table, k=None):
+    """Hostile shape for the rule databases: for k unary rows add a twin between the same
+    two labels with the opposite two-way flag, in either orientation, at a random position
+    (so a one-way single-child rule and a two-way one meet on one pair of classes, in both
+    arrival orders).  Tables without a unary row get one first."""
+    rows, n = table["rows"], table["n"]
+    unary = [r for r in rows if len(r[1]) == 1 and r[1][0] != r[0]]
+    if not unary:
+        a, b = rng.sample(range(n), 2) if n >= 2 else (0, 0)
+        if a == b:
+            return table
+        two_way = rng.random() < 0.5
+        unary = [[a, [b], [0], two_way, two_way or rng.random() < 0.3]]
+        rows.insert(rng.randrange(len(rows) + 1), unary[0])
+    for _ in range(k or rng.randint(1, 2)):
+        p, (c,), _, two_way, _ = rng.choice(unary)
+        a, b = (p, c) if rng.random() < 0.5 else (c, p)
+        tw = not two_way
+        rows.insert(rng.randrange(len(rows) + 1), [a, [b], [0], tw, tw or rng.random() < 0.3])
+    return table
+
+
 def build_pack(table, iterative=False, sets=1):
     rows, empties = table["rows"], table["empties"]
     strats = [TableStrategy(rows, i, empties) for i, r in enumerate(rows) if len(r[1]) > 0]
